@@ -66,6 +66,16 @@ func init() {
 		vm.Set("s", []int{1, 2})
 		return script(vm, `try { s[0] = -1.5; String(s[0]) } catch (e) { e.name }`)
 	}
+	w["c16_elem_write_pointer_kind"] = func() (string, error) {
+		vm := otto.New()
+		vm.Set("m", map[string]*bridge.Inner{"a": {N: 1}})
+		return script(vm, `try { m.b = null; 'stored ' + ('b' in m) } catch (e) { 'caught ' + e.name }`)
+	}
+	w["c16_tag_dash_comma"] = func() (string, error) {
+		vm := otto.New()
+		vm.Set("t", &bridge.Tagged{DashComma: 7})
+		return script(vm, `String(t["-"])`)
+	}
 	w["c16_element_copies"] = func() (string, error) {
 		d := &bridge.Doc{Grid: [][]int8{{1}, {2, 3}}, SIn: []bridge.Inner{{N: 1}}}
 		vm := otto.New()
